@@ -142,6 +142,15 @@
       a struct / enum whose fields hold `&mut` references is REJECTED unless listed in the manifest (BORROWED_FIELDS_OK:
       `renetcode::ServerResult`, whose `&'s mut [u8]` payloads are slices of the server's scratch buffer built in return
       position — translated as the snapshot of those bytes at the return);
+      a FINDER — a free fn whose whole body is `xs.iter_mut().flatten().find(|c| p)` (return type `Option<&mut T>`, `xs` a
+      `&mut [Option<T>]` parameter; the shape is checked by the translator) — returns the POSITION of the first `Some`
+      element satisfying `p` (`find_some_idx`); at the call site `if let Some(x) = finder(&mut place, ..)` makes `x` an
+      alias of `place[i]`'s payload (every read / write of `x` goes through the index, `unwrap` of the slot included);
+      a method returning a tuple with a `&[u8]` slice of `self`'s scratch buffer (manifest BORROWED_RETURN_OK:
+      `NetcodeServer::generate_payload_packet`) returns the slice by value; `&mut buf[a..b]` as an rvalue that is only
+      read afterwards is the snapshot `slice`; comparisons on `i32` are those of `Int`, `x as uW` for `x: i32` is
+      `cast_i32 w` (two's complement); `if let Some(x) = &mut place` makes `x` an alias of the payload of `place`;
+      `place.take()` on an `Option` place reads it and stores `None`;
     * a type parameter `I: Into<T>` is `T` and `x.into()` the identity on it (what every caller in the crates passes:
       `u8` channel ids, `Bytes` / `Vec<u8>` messages); a `Result` call whose result the caller inspects
       (`if let Err(e) = f(..)`, `match f(..) { Ok(..) => .., Err(..) => .. }`) is `Exec.attempt`: the `&mut` state the
@@ -306,6 +315,16 @@ def filter_mapM {ε ρ α β : Type} (l : List α) (f : α → Exec ε ρ (Optio
   | [] => .val []
   | x :: r => (f x).bind fun o => (filter_mapM r f).bind fun r' => .val (match o with | some b => b :: r' | none => r')
 
+/-- a "finder" (`fn f(xs: &mut [Option<T>], ..) -> Option<&mut T>` / `Option<(usize, &mut T)>` written as
+    `xs.iter_mut().flatten().find(p)` / `xs.iter_mut().enumerate().find_map(..)`): the POSITION of the first `Some`
+    element whose payload satisfies `p`; the returned `&mut T` is that slot (an alias at the call site) -/
+def find_some_idx {α : Type} (l : List (Option α)) (p : α → Bool) : Option Nat := go 0 l
+where
+  go (i : Nat) : List (Option α) → Option Nat
+    | [] => none
+    | some x :: r => if p x then some i else go (i + 1) r
+    | none :: r => go (i + 1) r
+
 /-- how one run of a `while` body ended early: `return r` of the function, `continue`, `break`
     (both with the current values of the loop-carried variables) -/
 inductive LoopExit (ρ σ : Type) where
@@ -435,6 +454,8 @@ def leBytes (x : Nat) : Nat → List Nat
   | k + 1 => x % 256 :: leBytes (x / 256) k
 /-- `x.to_le_bytes()` for `x : uW` -/
 def to_le_bytes (w x : Nat) : List Nat := leBytes x (w / 8)
+/-- `x as uW` for `x : i32`: sign extension then truncation (`x` itself when `0 ≤ x`) -/
+def cast_i32 (w : Nat) (x : Int) : Nat := (x % ((2 : Int) ^ w)).toNat
 /-- `x.to_be_bytes()` for `x : uW` -/
 def to_be_bytes (w x : Nat) : List Nat := (leBytes x (w / 8)).reverse
 /-- `uW::from_le_bytes(b)` -/
